@@ -248,20 +248,30 @@ class World(object):
                     ch = np.array([2, 0])
                     raw = tr['raw'][:, tr['channel_map']].astype(np.float64)
                     nsw = tr['spec']['nsw']
-                    exp = np.zeros((len(ids), nsw, 2))
-                    for i, sid in enumerate(ids):
-                        s = int(tr['spike_samples'][sid])
-                        for r in range(nsw):
-                            t = s - nsw // 2 + r
-                            if 0 <= t < raw.shape[0]:
-                                exp[i, r] = raw[t, ch]
-                    try:
-                        got = m.get_waveforms(ids, ch)
-                    except Exception as e:
-                        got = e
-                    if not (isinstance(got, np.ndarray) and got.shape == exp.shape and
-                            np.array_equal(np.asarray(got, dtype=np.float64), exp, equal_nan=True)):
-                        bad.append(('store', 'waveforms-differ-from-raw', describe(exp), describe(got)))
+                    requests = [(ids, ch)]
+                    if raw.shape[1] > 12:
+                        # the store holds 12 channels per spike: each stored spike is asked for two of its
+                        # own stored channels, in another order than the stored one
+                        rows = np.asarray(sw.spike_channels)
+                        requests = [(np.array([sid]), np.array([int(rows[k][1]), int(rows[k][0])]))
+                                    for k, sid in enumerate(np.asarray(sw.spike_ids).tolist())]
+                    for ids, ch in requests:
+                        exp = np.zeros((len(ids), nsw, 2))
+                        for i, sid in enumerate(ids):
+                            s = int(tr['spike_samples'][sid])
+                            for r in range(nsw):
+                                t = s - nsw // 2 + r
+                                if 0 <= t < raw.shape[0]:
+                                    exp[i, r] = raw[t, ch]
+                        try:
+                            got = m.get_waveforms(ids, ch)
+                        except Exception as e:
+                            got = e
+                        if not (isinstance(got, np.ndarray) and got.shape == exp.shape and
+                                np.array_equal(np.asarray(got, dtype=np.float64), exp, equal_nan=True)):
+                            bad.append(('store', 'waveforms-differ-from-raw', describe(exp), describe(got)))
+                            break
+                    ch = np.array([2, 0])
                     # a request that mixes stored and unstored spikes falls back to the raw data and
                     # must give the same windows
                     all_ids = np.arange(len(tr['spike_samples']))[::-1].copy()
@@ -339,6 +349,16 @@ def make_bases(ctx):
         if name == 'noclusters':
             spec['spike_clusters'] = 'absent'     # load_model creates the cluster file itself
         _BASES.append({'name': name, 'spec': spec})
+    # a 272-channel probe whose templates peak on the highest channels: the stored channel rows are
+    # decreasing and name channels beyond 256 (explored over the events that touch the store only)
+    _BASES.append({'name': 'raw272', 'spec': {
+        'n_spikes': 8, 'n_templates': 3, 'n_channels': 272, 'geometry': 'col14', 'nsw': 4, 'n_raw': 40,
+        'spike_templates': [0, 1, 2, 0, 0, 1, 0, 2], 'raw': True, 'features': 'absent', 'tfeatures': 'absent',
+        'whitening': 'identity', 'whitening_inv': True, 'fill': ctx.seed, 'naming': 'ks', 'channel_map': 'identity',
+        'profile': [[float(300 - abs(c - pk)) for c in range(272)] for pk in (271, 260, 5)],
+        'sample_rate': 0.02, 'spike_samples': [2, 6, 7, 15, 20, 24, 29, 35]}})
+
+RAW272_EVENTS = {('subset', 0), ('subset', 1), ('reload',), ('close',), ('save_clusters', 'merge')}
 
 
 def prepare(tier, seed):
@@ -362,7 +382,9 @@ def expand(key, hist, acc):
                     w.apply(tuple(e))
                 if not w.enabled(ev):
                     continue
-                if base['name'] != 'raw' and ev[0] == 'subset' and ev[1] == 1:
+                if not base['name'].startswith('raw') and ev[0] == 'subset' and ev[1] == 1:
+                    continue
+                if base['name'] == 'raw272' and ev not in RAW272_EVENTS:
                     continue
                 try:
                     w.apply(ev)
